@@ -22,7 +22,7 @@ from puresnmp.adt import (
     V3Flags,
 )
 from puresnmp.credentials import V3, Credentials
-from puresnmp.exc import SnmpError
+from puresnmp.exc import NotInTimeWindow, SnmpError
 from puresnmp.pdu import GetRequest, PDUContent
 from puresnmp.plugins.security import SecurityModel
 from puresnmp.transport import MESSAGE_MAX_SIZE
@@ -618,6 +618,15 @@ def validate_usm_message(message: PlainMessage) -> None:
         ObjectIdentifier("1.3.6.1.6.3.15.1.1.6.0"): "Unable to decrypt",
     }
     for varbind in pdu.varbinds:
+        if varbind.oid == ObjectIdentifier("1.3.6.1.6.3.15.1.1.2.0"):
+            secparams = USMSecurityParameters.decode(
+                message.security_parameters
+            )
+            raise NotInTimeWindow(
+                str(varbind.oid),
+                varbind.value.pythonize(),
+                secparams.authoritative_engine_id.hex(),
+            )
         if varbind.oid in errors:
             msg = errors[varbind.oid]
             raise SnmpError(f"Error response from remote device: {msg}")
